@@ -191,7 +191,7 @@ Theorem col_limbs_write_col n cols col size data (limbs : list (list Z)) :
 Proof.
   intros Hn Hc Hl Hll Hd. unfold col_limbs, write_col.
   destruct (write_col_read_aux n cols col limbs data 0 Hn Hc Hll ltac:(cbn; lia)) as [_ R]. cbv zeta in R.
-  rewrite <- (map_nth_seq limbs []) at 2. rewrite Hl. apply map_ext_in.
+  etransitivity; [|apply (map_nth_seq limbs [])]. rewrite Hl. apply map_ext_in.
   intros j Hj. apply in_seq in Hj. rewrite R by lia. cbn [Nat.ltb Nat.leb]. f_equal. lia.
 Qed.
 
@@ -203,10 +203,10 @@ Lemma transpose_untranspose n size (cs : list (list Z)) :
   length cs = n -> (forall c, In c cs -> length c = size) -> transpose n (untranspose size cs) = cs.
 Proof.
   intros Hn Hc. unfold transpose, untranspose.
-  rewrite <- (map_nth_seq cs []) at 2. rewrite Hn. apply map_ext_in.
+  etransitivity; [|apply (map_nth_seq cs [])]. rewrite Hn. apply map_ext_in.
   intros i Hi. apply in_seq in Hi. rewrite map_map.
   assert (Hci : length (nth i cs []) = size) by (apply Hc; apply nth_In; lia).
-  rewrite <- (map_nth_seq (nth i cs []) 0%Z) at 2. rewrite Hci. apply map_ext.
+  etransitivity; [|apply (map_nth_seq (nth i cs []) 0%Z)]. rewrite Hci. apply map_ext.
   intros j. rewrite (nthZ_map_default (fun c => nthZ c j)); [reflexivity|].
   unfold nthZ. destruct j; reflexivity.
 Qed.
@@ -214,7 +214,7 @@ Qed.
 (* after encode_vec_*, the active limbs of the column, read per coefficient, are the per-coefficient encodings *)
 Theorem enc_vec_flat_coeffs coef allow0 b k s buf data buf' :
   enc_vec_flat coef allow0 b k s buf data = Some buf' ->
-  (forall v, length (coef (s_size s) v) = s_size s) ->
+  (forall v, In v data -> length (coef (s_size s) v) = s_size s) ->
   e_coeffs s buf' = map (coef (s_size s)) data.
 Proof.
   unfold enc_vec_flat. destruct (_ && _ && _ && _)%bool eqn:Hc; [|discriminate].
@@ -223,9 +223,37 @@ Proof.
   apply Nat.eqb_eq in Hd. apply e_ok_facts in Hc as (A & B & C & D & E).
   unfold e_coeffs. rewrite col_limbs_write_col; try lia.
   - apply transpose_untranspose; [rewrite map_length; exact Hd|].
-    intros c Hin. apply in_map_iff in Hin as (v & <- & _). apply Hlen.
+    intros c Hin. apply in_map_iff in Hin as (v & <- & Hv). apply Hlen. exact Hv.
   - apply untranspose_length.
   - intros l Hin. unfold untranspose in Hin. apply in_map_iff in Hin as (j & <- & _).
     rewrite !map_length. exact Hd.
   - rewrite C. nia.
+Qed.
+
+(* reading one coefficient of the column *)
+Lemma e_coeffs_nth s buf idx : idx < s_n s -> s_col s < s_cols s -> s_size s <= s_max s ->
+  length buf = s_n s * s_cols s * s_max s ->
+  nth idx (e_coeffs s buf) [] = map (fun j => nth (e_off s j idx) buf 0%Z) (seq 0 (s_size s)).
+Proof.
+  intros Hi Hc Hs Hl. unfold e_coeffs, transpose.
+  rewrite (nth_indep _ [] ((fun i => map (fun l => nthZ l i) (col_limbs (s_n s) (s_cols s) (s_size s) buf (s_col s))) 0))
+    by (rewrite map_length, seq_length; exact Hi).
+  rewrite (map_nth (fun i => map (fun l => nthZ l i) (col_limbs (s_n s) (s_cols s) (s_size s) buf (s_col s)))).
+  rewrite seq_nth by exact Hi. cbn [Nat.add].
+  unfold col_limbs. rewrite map_map. apply map_ext_in. intros j Hj. apply in_seq in Hj.
+  unfold nthZ, limb_at, e_off. rewrite nth_firstn_lt' by exact Hi. rewrite nth_skipn'. reflexivity.
+Qed.
+
+Theorem enc_coeff_flat_coeff b k s buf idx v buf' :
+  enc_coeff_flat b k s buf idx v = Some buf' ->
+  length (enc_i64 b k (s_size s) v) = s_size s ->
+  nth idx (e_coeffs s buf') [] = enc_i64 b k (s_size s) v.
+Proof.
+  intros H Hlen. pose proof H as H0. apply enc_coeff_flat_frame in H as (L & _ & W).
+  unfold enc_coeff_flat in H0. destruct (_ && _ && _ && _)%bool eqn:Hc; [|discriminate].
+  apply andb_prop in Hc as [Hc _]. apply andb_prop in Hc as [Hc _]. apply andb_prop in Hc as [Hc Hi].
+  apply Nat.ltb_lt in Hi. apply e_ok_facts in Hc as (A & B & C & D & E).
+  rewrite e_coeffs_nth; [|exact Hi|exact A|exact B|rewrite L; exact C].
+  etransitivity; [|apply (map_nth_seq (enc_i64 b k (s_size s) v) 0%Z)]. rewrite Hlen.
+  apply map_ext_in. intros j Hj. apply in_seq in Hj. apply W. lia.
 Qed.
